@@ -1,0 +1,28 @@
+//go:build verif
+
+// Contracts for the verifier in /verif (govc). Comment-only: no declarations.
+
+package socketace
+
+//@ ghost G_hostonly(s interface{}) bool
+//@ ghost G_istls(c interface{}) bool
+//@ ghost G_snap_skipverify(c interface{}) bool
+
+// ---- C05: the client verifies the server against the upstream host name with the configured trust settings
+//@ func NewClientConnection
+//@   property C05
+//@   requires G_hostonly(host)                                   :server_name_is_host_only
+
+//@ iface (github.com/bokysan/socketace/v2/internal/util/cert.TlsConfig).GetTlsConfig (m cert.TlsConfig) (result *tls.Config, err error)
+//@   pure
+//@   ensures err == nil ==> result != nil
+
+//@ func (cc *ClientConnection) startTls
+//@   property C05, C04
+//@   safe
+//@   requires conn != nil
+//@   callsite GetTlsConfig#1 (conf *tls.Config, e error) assume e == nil ==> G_snap_skipverify(conf) == conf.InsecureSkipVerify "ghost snapshot of the verification setting the certificate manager returned"
+//@   callsite tls.Client#1 (tlsConn *tls.Conn, tlsConfig *tls.Config) assert tlsConfig.ServerName == cc.host      :server_name_is_the_upstream_host
+//@   callsite tls.Client#1 (tlsConn *tls.Conn, tlsConfig *tls.Config) assert cc.manager != nil ==> tlsConfig.InsecureSkipVerify == G_snap_skipverify(tlsConfig)      :verification_setting_untouched
+//@   callsite tls.Client#1 (tlsConn *tls.Conn, tlsConfig *tls.Config) assert cc.manager == nil ==> !tlsConfig.InsecureSkipVerify      :verification_on_without_manager
+//@   ensures err == nil ==> result != nil                                                                          :connection_only_after_handshake
